@@ -2037,6 +2037,110 @@ theorem serve_v1_full (b : Backend) (hb : b ≠ .rdbV2) (s : Store) (recs : List
     (fun g hg lab hlab => hq.1 lab ((answer_group_owner _ q qt qc m l g hg) ▸ hlab)) _ _ ht,
     answer_additional ⟨viewSort l recs, maps, subnets⟩ q qt qc m l]
 
+instance (rrs : List OutRR) : Decidable (TargetsOK rrs) := by unfold TargetsOK; infer_instance
+
+/-! ### a store that represents a record list (non-vacuity of `Represents`) -/
+
+theorem find?_map_key (f : Bytes × List Bytes → Bytes × List Bytes) (hf : ∀ e, (f e).1 = e.1) (k : Bytes) :
+    ∀ s : Store, (s.map f).find? (fun e => decide (e.1 = k)) = (s.find? (fun e => decide (e.1 = k))).map f
+  | [] => rfl
+  | e :: s => by
+    rw [List.map_cons, List.find?_cons, List.find?_cons, hf e]
+    by_cases h : e.1 = k
+    · simp [h]
+    · simp only [h, decide_false]
+      exact find?_map_key f hf k s
+
+theorem get_insert (s : Store) (k' v k : Bytes) :
+    (s.insert k' v).get k = if k = k' then s.get k ++ [v] else s.get k := by
+  unfold Store.insert
+  by_cases ha : (s.any fun e => decide (e.1 = k')) = true
+  · rw [if_pos ha]
+    unfold Store.get
+    rw [find?_map_key _ (by intro e; obtain ⟨a, b⟩ := e; by_cases h : a = k' <;> simp [h]) k s]
+    cases hf : s.find? (fun e => decide (e.1 = k)) with
+    | none =>
+      simp only [Option.map_none]
+      by_cases hk : k = k'
+      · exfalso
+        rw [List.find?_eq_none] at hf
+        rw [List.any_eq_true] at ha
+        obtain ⟨e, he, hp⟩ := ha
+        exact hf e he (by simpa [hk] using hp)
+      · rw [if_neg hk]
+    | some e =>
+      obtain ⟨a, vs⟩ := e
+      have hak : a = k := by simpa using List.find?_some hf
+      subst hak
+      simp only [Option.map_some]
+      by_cases hk : a = k'
+      · simp [hk]
+      · simp [hk]
+  · rw [if_neg ha]
+    unfold Store.get
+    rw [List.find?_append]
+    have hnone : ∀ e ∈ s, e.1 ≠ k' := by
+      intro e he h
+      apply ha
+      rw [List.any_eq_true]
+      exact ⟨e, he, by simpa using h⟩
+    by_cases hk : k = k'
+    · rw [if_pos hk]
+      have : s.find? (fun e => decide (e.1 = k)) = none := by
+        rw [List.find?_eq_none]
+        intro e he
+        simpa [hk] using hnone e he
+      rw [this]
+      simp [hk]
+    · rw [if_neg hk]
+      have : ([(k', [v])] : Store).find? (fun e => decide (e.1 = k)) = none := by
+        have hne : ¬ k' = k := fun h => hk h.symm
+        simp [hne]
+      rw [this, Option.or_none]
+
+theorem get_foldl_insert (kvs : List (Bytes × Bytes)) (k : Bytes) : ∀ s : Store,
+    (kvs.foldl (fun s kv => s.insert kv.1 kv.2) s).get k
+      = s.get k ++ (kvs.filter fun kv => decide (kv.1 = k)).map (·.2) := by
+  induction kvs with
+  | nil => intro s; simp
+  | cons kv kvs ih =>
+    intro s
+    rw [List.foldl_cons, ih, get_insert]
+    by_cases h : kv.1 = k
+    · rw [if_pos h.symm, List.filter_cons_of_pos (by simpa using h)]
+      simp
+    · rw [if_neg (fun h' => h h'.symm), List.filter_cons_of_neg (by simpa using h)]
+
+/-- the store a compiler writing `rowOfRec` rows under v1 keys produces -/
+def storeOf (recs : List Rec) : Store :=
+  Store.ofKVs (recs.map fun r => (r.loc ++ pack r.owner, rowOfRec r))
+
+/-- owners are storable names and tags are two bytes -/
+def OwnersOK (recs : List Rec) : Prop := ∀ r ∈ recs, r.loc.length = 2 ∧ ∀ lab ∈ r.owner, LabelOK lab
+
+instance (recs : List Rec) : Decidable (OwnersOK recs) := by unfold OwnersOK; infer_instance
+
+theorem represents_storeOf (recs : List Rec) (h : OwnersOK recs) : Represents (storeOf recs) recs := by
+  intro loc hloc ls hn
+  unfold storeOf Store.ofKVs
+  rw [get_foldl_insert]
+  show [] ++ _ = _
+  rw [List.nil_append, List.filter_map, List.map_map]
+  unfold recsAt
+  congr 1
+  apply List.filter_congr
+  intro r hr
+  have hr' := h r hr
+  simp only [Function.comp, Bool.decide_and]
+  rw [Bool.eq_iff_iff]
+  simp only [decide_eq_true_eq, Bool.and_eq_true]
+  constructor
+  · intro he
+    have := List.append_inj he (by rw [hr'.1, hloc])
+    exact ⟨pack_injective _ _ hr'.2 hn.1 this.2, this.1⟩
+  · rintro ⟨h1, h2⟩
+    rw [h1, h2]
+
 end Refinement
 
 end DnsVerif.ServeRefine
